@@ -789,7 +789,11 @@ def check_c18(tier):
         # a sibling document in the same directory that OVERRIDES a conftest fixture locally
         with open(os.path.join(root, "test_sib.py"), "w") as fh:
             fh.write(SIB_18)
-        if c["role"].startswith("inc_") and n % 2 == 1 and c.get("host") != "plugin":
+        # variants are chosen by a hash of the case, not by its position in TLC's enumeration (which correlates with the
+        # fastest-varying dimensions of the table)
+        import hashlib
+        hv = int(hashlib.md5(json.dumps({k: v for k, v in c.items() if k != "expect"}, sort_keys=True).encode()).hexdigest(), 16)
+        if c["role"].startswith("inc_") and hv % 2 == 1 and c.get("host") != "plugin":
             c = dict(c, above=True)
         text, line, col = c18_doc(c)
         tpath = os.path.join(root, "test_e.py")
@@ -810,7 +814,7 @@ def check_c18(tier):
                 srv.did_change(tpath, text)
             else:
                 srv.did_open(tpath, text)
-            if n % 2 == 0:
+            if (hv // 2) % 2 == 0:
                 # the sibling is asked FIRST, with no analysis between the two requests: whatever is computed per directory
                 # for the sibling's view must not leak into the edited document's
                 srv.did_open(os.path.join(root, "test_sib.py"), SIB_18)
